@@ -287,9 +287,10 @@ class ToListH(_Arr):
 
 
 class FromListH(_Arr):
-    """integer_ndarray.from_list / boolean_ndarray.from_list for a duplicate-free list of ids (symbolic ids: any of them
-    may or may not occur in the context): entry j is the 1-based position of context[j] in the list (integer arrays) /
-    1 (boolean arrays) if it is listed, 0 otherwise; the nested form converts row by row."""
+    """integer_ndarray.from_list / boolean_ndarray.from_list for a list of ids (symbolic ids: any of them may or may not
+    occur in the context, and the list may repeat one): entry j is the 1-based position of the FIRST occurrence of
+    context[j] in the list (integer arrays) / 1 (boolean arrays) if it is listed, 0 otherwise; the nested form converts row
+    by row.  The context is duplicate-free (a variable list)."""
     name = "integer_ndarray.from_list"
     function = "integer_ndarray.from_list"
     functions = ["integer_ndarray.from_list", "boolean_ndarray.from_list"]
@@ -307,9 +308,7 @@ class FromListH(_Arr):
         c.symbolic_ids = True
         lst = [SId(z3.Int(f"l{k}")) for k in range(case["lst"])]
         cx = [SId(z3.Int(f"c{j}")) for j in range(case["ctx"])]
-        for a in range(len(lst)):
-            for b in range(a + 1, len(lst)):
-                c.assume_global(lst[a].t != lst[b].t)
+        # the list may repeat an id: the position reported is that of its first occurrence (list.index)
         for a in range(len(cx)):
             for b in range(a + 1, len(cx)):
                 c.assume_global(cx[a].t != cx[b].t)
